@@ -318,3 +318,48 @@ def argument_roles_agree(ctx, rep, R):
     rep.ok(R, '%d positional arguments at call sites resolved inside the package: every plain name that is '
            'also a parameter name of the callee is bound to that parameter' % n)
     return n
+
+
+# ---- options fixed by the command line ----------------------------------------------------------
+def option_stores(ctx, attr, holders=('options', 'defaults', 'opts')):
+    """(function, target node, value or None) for every store / delete of <options>.<attr> outside
+    the argparse machinery: attribute assignment, augmented assignment, del, setattr / delattr,
+    subscript store through vars() / __dict__"""
+    out = []
+    for fi in ctx.model.all_functions():
+        if fi.module.name.startswith('tests'):
+            continue
+        for x in ast.walk(fi.node):
+            if isinstance(x, ast.Assign):
+                for t in x.targets:
+                    for tt in (t.elts if isinstance(t, (ast.Tuple, ast.List)) else [t]):
+                        if isinstance(tt, ast.Attribute) and tt.attr == attr and \
+                                (dotted(tt.value) or '').split('.')[-1] in holders:
+                            out.append((fi, tt, x.value if tt is t else None))
+            elif isinstance(x, (ast.AugAssign, ast.AnnAssign)) and isinstance(x.target, ast.Attribute) and \
+                    x.target.attr == attr and (dotted(x.target.value) or '').split('.')[-1] in holders:
+                out.append((fi, x.target, None))
+            elif isinstance(x, ast.Delete):
+                for t in x.targets:
+                    if isinstance(t, ast.Attribute) and t.attr == attr and \
+                            (dotted(t.value) or '').split('.')[-1] in holders:
+                        out.append((fi, t, None))
+            elif isinstance(x, ast.Call) and dotted(x.func) in ('setattr', 'delattr') and len(x.args) >= 2 and \
+                    isinstance(x.args[1], ast.Constant) and x.args[1].value == attr:
+                out.append((fi, x, x.args[2] if len(x.args) > 2 else None))
+            elif isinstance(x, ast.Subscript) and isinstance(x.ctx, (ast.Store, ast.Del)) and \
+                    isinstance(x.slice, ast.Constant) and x.slice.value == attr and any(
+                        h in norm(x.value) for h in holders):
+                out.append((fi, x, None))
+    return out
+
+
+def option_is_what_was_given(ctx, rep, R, attr, what):
+    stores = option_stores(ctx, attr)
+    for fi, tgt, val in stores:
+        rep.check(False, R, '%s: options.%s is not overwritten' % (fi.qualname, attr),
+                  '%s stores %s into options.%s: %s is then not what the command line said' % (
+                      fi.qualname, norm(val)[:50] if val is not None else 'a new value', attr, what),
+                  key='option-store:%s:%s' % (attr, fi.qualname), func=fi.qualname, where=ctx.where(fi, tgt))
+    rep.ok(R, 'options.%s is stored by the parser only (%d other stores in the package)' % (attr, len(stores)))
+    return len(stores)
